@@ -35,6 +35,9 @@ PATH_SCHEMAS = [
     ({"type": "boolean"}, "POther", True),
     ({"type": "string", "enum": ["a", "b"]}, "POther", True),
     ({"type": "integer", "minimum": 3}, "POther", True),
+    # without a top-level type (OpenAPI 3 only)
+    ({"enum": ["a", "b"]}, "POther", True),
+    ({"minimum": 3}, "POther", True),
 ]
 HEADER_SCHEMAS = [
     ({"type": "string"}, "PStrOnly", False),
@@ -42,6 +45,7 @@ HEADER_SCHEMAS = [
     ({"type": "integer"}, "POther", True),
     ({"type": "string", "enum": ["a", "b"]}, "POther", True),
     ({"type": "boolean"}, "POther", True),
+    ({"enum": ["a", "b"]}, "POther", True),  # no top-level type
 ]
 QUERY_SCHEMAS = [
     ({"type": "integer"}, "POther", True),
@@ -50,6 +54,10 @@ QUERY_SCHEMAS = [
     ({"type": "boolean"}, "POther", True),
     ({"type": "string", "enum": ["a", "b"]}, "POther", True),
     ({"type": "integer", "maximum": 10}, "POther", True),
+    # without a top-level type (OpenAPI 3 only)
+    ({"enum": [1, 2]}, "POther", True),
+    ({"minimum": 3}, "POther", True),
+    ({"anyOf": [{"type": "integer"}, {"type": "boolean"}]}, "POther", True),
 ]
 SCHEMAS = {"path": PATH_SCHEMAS, "header": HEADER_SCHEMAS, "cookie": HEADER_SCHEMAS, "query": QUERY_SCHEMAS}
 # (schema, can_negate)
@@ -60,7 +68,43 @@ BODY_SCHEMAS = [
     ({"type": "object", "properties": {"a": {"type": "integer"}}, "required": ["a"], "additionalProperties": False}, True),
     ({"type": "string", "minLength": 3}, True),
     ({"type": "array", "items": {"type": "boolean"}}, True),
+    # without a top-level type: properties/required only, items only, enum only, combinators only; nullable
+    ({"properties": {"a": {"type": "integer"}, "b": {"type": "string"}}, "required": ["a"]}, True),
+    ({"items": {"type": "integer"}}, True),
+    ({"enum": [1, "a"]}, True),
+    ({"anyOf": [{"type": "integer"}, {"type": "string", "minLength": 2}]}, True),
+    ({"allOf": [{"properties": {"a": {"type": "boolean"}}}], "required": ["a"]}, True),
+    ({"type": "integer", "nullable": True}, True),
+    ({"properties": {"a": {"type": "integer"}}, "additionalProperties": False}, True),
 ]
+TYPELESS_BODY = [6, 7, 8, 9, 10, 12]
+
+
+def declared_schema(schema, version=3):
+    """The harness own reading of a schema AS DECLARED in the document as Draft 4 (never the converter of the code under test):
+    everything is Draft 4 already except nullable / x-nullable."""
+    if isinstance(schema, list):
+        return [declared_schema(x, version) for x in schema]
+    if not isinstance(schema, dict):
+        return schema
+    key = "nullable" if version == 3 else "x-nullable"
+    out = {}
+    for k, v in schema.items():
+        if k == key:
+            continue
+        if k in ("properties",):
+            out[k] = {n: declared_schema(x, version) for n, x in v.items()}
+        elif k in ("items", "additionalProperties", "not", "anyOf", "allOf", "oneOf"):
+            out[k] = declared_schema(v, version)
+        else:
+            out[k] = v
+    if schema.get(key) is True:
+        return {"anyOf": [out, {"type": "null"}]}
+    return out
+
+
+def typed_indices(loc):
+    return [i for i, (sch, _, _) in enumerate(SCHEMAS[loc]) if "type" in sch]
 MEDIA_OK = ["application/json", "text/plain", "application/xml"]
 MEDIA_BAD = "application/x-verif-unknown"
 
@@ -70,17 +114,21 @@ MEDIA_BAD = "application/x-verif-unknown"
 # ----------------------------------------------------------------------------------------
 def gen_shape(rng, force=None):
     """An abstract operation: parameters per location, body alternatives, explicit arguments."""
-    shape = {"params": {}, "explicit": {}, "body": None, "body_explicit": False}
+    shape = {"params": {}, "explicit": {}, "body": None, "body_explicit": False, "version": 2 if rng.random() < 0.25 else 3}
     names = {"path": ["id", "key"], "header": ["X-A", "X-B"], "cookie": ["ca", "cb"], "query": ["q", "r", "s"]}
     for loc in LOCS:
         k = rng.choice([0, 0, 1, 1, 2, 3] if loc == "query" else [0, 0, 1, 1, 2])
         ps = []
+        if shape["version"] == 2 and loc == "cookie":
+            k = 0  # Swagger 2.0 has no cookie parameters
         for name in names[loc][:k]:
             idx = rng.randrange(len(SCHEMAS[loc]))
             if rng.random() < (0.12 if loc == "path" else 0.35):
                 idx = 0 if loc != "query" else 1  # the plain string schema: the not-negatable class
             elif loc == "path" and idx == 0 and rng.random() < 0.7:
                 idx = 1  # a string-only path parameter makes the negative strategy empty (slow): keep it rare
+            if shape["version"] == 2 and "type" not in SCHEMAS[loc][idx][0]:
+                idx = rng.choice(typed_indices(loc))  # Swagger 2.0 non-body parameters always carry a type
             ps.append({"name": name, "schema_idx": idx, "required": True if loc == "path" else rng.random() < 0.5})
         shape["params"][loc] = ps
         # explicit argument: not given / {} / some of the names / all names / a name that is not a parameter
@@ -106,12 +154,15 @@ def gen_shape(rng, force=None):
         medias = list(MEDIA_OK)
         rng.shuffle(medias)
         for m in medias[: rng.choice([1, 1, 2])]:
-            alts.append({"media": m, "schema_idx": rng.randrange(len(BODY_SCHEMAS))})
+            alts.append({"media": m, "schema_idx": rng.choice(TYPELESS_BODY) if rng.random() < 0.4 else rng.randrange(len(BODY_SCHEMAS))})
         if rng.random() < 0.12:
             alts[rng.randrange(len(alts))]["media"] = MEDIA_BAD
         if rng.random() < 0.3:
             for a in alts:
                 a["schema_idx"] = rng.choice([0, 1])
+        if shape["version"] == 2:
+            for a in alts:  # Swagger 2.0: one body schema, several consumes
+                a["schema_idx"] = alts[0]["schema_idx"]
         shape["body"] = {"required": rng.random() < 0.5, "alts": alts}
         shape["body_explicit"] = rng.random() < 0.15
     if force == "no_explicit":
@@ -120,7 +171,36 @@ def gen_shape(rng, force=None):
     return shape
 
 
+def v2_schema(schema):
+    if isinstance(schema, dict):
+        return {("x-nullable" if k == "nullable" else k): (v2_schema(v) if k != "enum" else v) for k, v in schema.items()}
+    if isinstance(schema, list):
+        return [v2_schema(x) for x in schema]
+    return schema
+
+
+def build_document_v2(shape):
+    segs = "".join("/{%s}" % p["name"] for p in shape["params"]["path"])
+    path = "/x" + segs
+    params = []
+    for loc in LOCS:
+        if loc == "cookie":
+            continue
+        for p in shape["params"][loc]:
+            params.append({"name": p["name"], "in": loc, "required": p["required"], **copy.deepcopy(SCHEMAS[loc][p["schema_idx"]][0])})
+    op = {"responses": {"200": {"description": "ok"}}}
+    if shape["body"] is not None:
+        alts = shape["body"]["alts"]
+        params.append({"name": "body", "in": "body", "required": shape["body"]["required"], "schema": v2_schema(copy.deepcopy(BODY_SCHEMAS[alts[0]["schema_idx"]][0]))})
+        op["consumes"] = [a["media"] for a in alts]
+    if params:
+        op["parameters"] = params
+    return {"swagger": "2.0", "info": {"title": "t", "version": "1"}, "paths": {path: {"post": op}}}, path
+
+
 def build_document(shape):
+    if shape.get("version", 3) == 2:
+        return build_document_v2(shape)
     segs = "".join("/{%s}" % p["name"] for p in shape["params"]["path"])
     path = "/x" + segs
     params = []
@@ -144,7 +224,7 @@ def location_schema(shape, loc):
     """The harness own JSON Schema of one location (what a value of the location must satisfy)."""
     props, required = {}, []
     for p in shape["params"][loc]:
-        s = copy.deepcopy(SCHEMAS[loc][p["schema_idx"]][0])
+        s = declared_schema(copy.deepcopy(SCHEMAS[loc][p["schema_idx"]][0]), shape.get("version", 3))
         if loc in ("header", "cookie"):
             s.setdefault("type", "string")
         if loc == "path" and s.get("type") == "string":
@@ -447,7 +527,11 @@ def wire_valid_value(schema, v):
     t = wire_text(v)
     if t is None:
         return False
+    if "anyOf" in schema:
+        return any(wire_valid_value(sub, v) for sub in schema["anyOf"])
     ty = schema.get("type")
+    if ty is None and ("minimum" in schema or "maximum" in schema) and INT_RE.match(t):
+        ty = "integer"  # a typeless numeric bound applies to text that reads as a number
     if ty == "integer":
         if not INT_RE.match(t):
             return False
@@ -456,7 +540,7 @@ def wire_valid_value(schema, v):
     if ty == "boolean":
         return t in ("true", "false")
     if "enum" in schema:
-        return t in schema["enum"]
+        return t in [wire_text(e) for e in schema["enum"]]
     if len(t) < schema.get("minLength", 0):
         return False
     return True
@@ -527,7 +611,7 @@ def oracle_case(chk, shape, event, mode, stats):
                 stats["notset_body_labelled_negative"] += 1
                 chk.fail("absent body labelled negative", inp, region="notset_body_labelled_negative")
         elif alt is not None:
-            ok = jsonschema.Draft4Validator(BODY_SCHEMAS[alt["schema_idx"]][0]).is_valid(case.body)
+            ok = jsonschema.Draft4Validator(declared_schema(BODY_SCHEMAS[alt["schema_idx"]][0])).is_valid(case.body)
             stats["parts_checked"] += 1
             if blabel == "NEGATIVE" and ok:
                 chk.fail("body labelled negative is valid for its schema", inp, {"body": repr(case.body)[:200]})
